@@ -343,6 +343,8 @@ impl<'a> Monitor<'a> {
     /// C05: the observed effective clip against the shadow model of the whole stack
     fn check_clip_model(&mut self) {
         let eff = effective_clip(&mut self.twin, self.w, self.h);
+        // (recorded first: the early returns below must not leave the previous clip cached)
+        self.eff = Some(eff.clone());
         let r = self.model_rect();
         let paths: Vec<Vec<u8>> = self.clips.iter().filter_map(|c| if let ClipEntry::Path(p) = c { Some(p.clone()) } else { None }).collect();
         let band = ((paths.len().saturating_sub(1)) as f64 / 2.).ceil() + 1.0;
@@ -680,7 +682,20 @@ impl<'a> Monitor<'a> {
                 // the coverage of the path's image under the transform in force now (pre-transformed and
                 // filled under the identity: a singular transform still rasterises the degenerate image
                 // for a clip, while a fill under it draws nothing at all)
-                let cov = probe_cov_fill(self.w, self.h, &identity(), &p.clone().transform(&self.ctm), true);
+                let pre = p.clone().transform(&self.ctm);
+                let cov_fill = probe_cov_fill(self.w, self.h, &identity(), &pre, true);
+                // the antialiased coverage of the clip path itself: what pushing it alone lets through. It may differ
+                // from filling the same path by a sample cell or two next to the outline (a fill drops cells that
+                // stray outside the path's bounding box, the surface-sized clip mask keeps them), not by more
+                let cov = {
+                    let mut t = DrawTarget::new(self.w, self.h);
+                    t.push_clip(&pre);
+                    effective_clip(&mut t, self.w, self.h)
+                };
+                if let Some(k) = cov.iter().zip(cov_fill.iter()).position(|(a, b)| (*a as i32 - *b as i32).abs() > 32) {
+                    self.viol("C05", format!("the clip path lets {} through at ({},{}) but filling the same path covers the pixel by {}", cov[k], k as i32 % self.w, k as i32 / self.w, cov_fill[k]));
+                }
+                self.st.max("max_difference_between_clip_mask_and_fill_coverage", cov.iter().zip(cov_fill.iter()).map(|(a, b)| (*a as i32 - *b as i32).abs()).max().unwrap_or(0) as f64);
                 self.clips.push(ClipEntry::Path(cov));
                 self.check_clip_model();
             }
@@ -991,6 +1006,11 @@ fn gen_draw(rng: &mut crate::prng::Rng, w: i32, h: i32, prof: &SceneProfile, sin
             let data: Vec<u8> = (0..(mw * mh) as usize).map(|_| rng.byte_biased()).collect();
             Op::Mask(src, rng.int(-(mw as i64), w as i64) as i32, rng.int(-(mh as i64), h as i64) as i32, mw, mh, data)
         }
+        10 if rng.chance(0.12) && w * h <= 600 => {
+            // an image exactly as large as the surface, at the origin or next to it
+            let img = Img { w, h, data: random_image_data(rng, w, h) };
+            Op::DrawImageAt(if rng.chance(0.7) { 0. } else { rng.int(-1, 1) as f32 }, 0., img, o)
+        }
         10 => {
             let iw = rng.int(1, 5) as i32;
             let ih = rng.int(1, 5) as i32;
@@ -1012,12 +1032,21 @@ fn gen_clip(rng: &mut crate::prng::Rng, w: i32, h: i32) -> Op {
         let (x0, y0) = (rng.int(-3, w as i64) as i32, rng.int(-3, h as i64) as i32);
         match rng.below(8) {
             0 => Op::PushClipRect(x0, y0, x0 - rng.int(0, 3) as i32, y0 + 2),               // inverted / empty
-            1 => Op::PushClipRect(-100, -100, 100 + w, 100 + h),                             // oversized
+            1 => {
+                if rng.chance(0.3) {
+                    // wider and taller than any i32 difference can express
+                    Op::PushClipRect(-2_000_000_000, -2_000_000_000, 2_000_000_000, 2_000_000_000)
+                } else {
+                    Op::PushClipRect(-100, -100, 100 + w, 100 + h) // oversized
+                }
+            }
             2 => Op::PushClipRect(w + 2, 0, w + 6, h),                                       // off-surface
             _ => Op::PushClipRect(x0, y0, x0 + rng.int(1, w as i64 + 3) as i32, y0 + rng.int(1, h as i64 + 3) as i32),
         }
     } else {
         let p = match rng.below(5) {
+            // a path with no ops at all encloses nothing: everything is clipped away
+            0 if rng.chance(0.15) => Path { ops: Vec::new(), winding: Winding::NonZero },
             0 => rect_path(0., 0., w as f32, h as f32), // fully covering path
             1 => small_shape(rng, w, h),
             4 => {
@@ -1108,6 +1137,10 @@ pub fn gen_scene(rng: &mut crate::prng::Rng, prof: &SceneProfile) -> Scene {
                     _ => ops.push(Op::PopLayer),
                 }
             }
+        } else if rng.chance(0.07) && ops.last().map(|o| o.is_draw()).unwrap_or(false) {
+            // the same call again, bit for bit (a translucent colour over itself, a source over its own result)
+            let again = ops[ops.len() - 1].clone();
+            ops.push(again);
         } else {
             ops.push(gen_draw(rng, w, h, prof, singular));
         }
